@@ -102,10 +102,15 @@ def check_case(ctx, case):
             if len(sc.style) != 1:
                 return 'style elements: %d' % len(sc.style)
             css = nl_norm(sc.style[0].text)
+            # the rules close the style sheet, in order; white space between and after the rules is svgbob's business
             want = nl_norm('.svgbob .a{ ' + representable(payload) + ' }')
-            if case.get('dup'):
-                want = nl_norm('.svgbob .a{ fill:red }\n' + want)
-            if not css.endswith('\n' + want):
+            body = css.rstrip()
+            ok = body.endswith(want) and body[:-len(want)][-1:].isspace()
+            if ok and case.get('dup'):
+                head = body[:-len(want)].rstrip()
+                ok = head.endswith('.svgbob .a{ fill:red }') and head[:-len('.svgbob .a{ fill:red }')][-1:].isspace()
+                want = '.svgbob .a{ fill:red } ' + want
+            if not ok:
                 return 'legend css read back %r, expected %r' % (css[-len(want) - 20:], want)
     return None
 
